@@ -185,7 +185,7 @@ def frag_refs(chk, info):
         chk.tie_broken("translator-validation", {"what": "reference table differs between SDK and Gen_RefChecks",
                                                  "model_ref": m, "length": n, "numeric": num})
     # -- explicit cases: corpus, long chains, nasty key values
-    nasty = ["5", "0", "007", "x", "", "-5", "+5", "5.5", " 5", "5_0", "½", "²", "٣", "١٢", "1e3",
+    nasty = ["5", "0", "007", "x", "", "-5", "+5", "5.5", " 5", "5_0", "½", "²", "٣", "١٢", "1e3", "5\n", "\n5", "5 ",
              "５"]
     cases = []
     cdir = os.path.join(common.VERIF, "corpus", "C02")
@@ -407,7 +407,7 @@ def boundary_strings(kind, rng, extra):
                     res.append("".join(s))
     if kind in ("check_version_type", "check_revision_type"):
         res += ["0", "00", "01", "10", "1", "9", "9999", "10000", "0999", "a", "1a", "a1", "-1", "+1", "1.0", " 1", "1 ",
-                "1\n", "٣", "1٣", "１", "0000", "1000", "010"]
+                "1\n", "٣", "1٣", "１", "0000", "1000", "010", "999\n", "\n1", "1\r", "9\t", "1\x00"]
         res += ["".join(rng.choice("0123456789") for _ in range(rng.randint(1, 5))) for _ in range(extra)]
     else:
         for _ in range(extra):
@@ -448,7 +448,7 @@ def frag_strs(chk, info):
                          + ("valid" if ok else "invalid"), {"kind": "str", "check": kind, "codes": [ord(c) for c in s]})
     # idShort
     ids = ["a", "A", "z", "Z", "a1", "a_", "_a", "1a", "a-", "a b", "", "é", "aé", "éa", "a" * 128, "a" * 129,
-           "a\n", "аbc", "A" + "_" * 127, "aa\ud800", "ª", "aª", "Ａ", "a１"]
+           "a\n", "аbc", "A" + "_" * 127, "aa\ud800", "ª", "aª", "Ａ", "a１", "a" * 127 + "\n", "\na", "a\r", "a\x00", "a b\n"]
     for _ in range(40 if chk.tier == "quick" else 600):
         n = rng.choice([1, 2, 3, 127, 128, 129])
         s = [rng.choice("abzAZ09_") for _ in range(n)]
@@ -593,10 +593,10 @@ def attr_verdict(e, ok, read, s, before, lbl):
 # =====================================================================================================
 
 def regenerate(chk):
-    from py2coq import refchecks, intranges, strconstraints
+    from py2coq import refchecks, intranges, strconstraints, beechecks
     from py2coq.c02engine import Abort
     infos = {}
-    for name, mod in (("refs", refchecks), ("ints", intranges), ("strs", strconstraints)):
+    for name, mod in (("refs", refchecks), ("ints", intranges), ("strs", strconstraints), ("bee", beechecks)):
         try:
             infos[name] = mod.regenerate(common.REPO, common.GEN)
         except Abort as e:
@@ -651,7 +651,7 @@ def run(chk):
             common.run_mismatch_shards = common_run
     chk.trusted = [
         "Coq 8.16.1 kernel (coqc; vm_compute for Examples and the tie evaluation; no native_compute)",
-        "translators tools/py2coq/{c02engine,refchecks,intranges,strconstraints}.py (fail-closed; validated on every run "
+        "translators tools/py2coq/{c02engine,refchecks,intranges,strconstraints,beechecks}.py (fail-closed; validated on every run "
         "by evaluating the generated definitions and the Python originals on the same inputs)",
         "Python's re.fullmatch decides membership in the regular language of the (escape-free) patterns translated",
         "str.isalpha restricted to ASCII = [A-Za-z] (premise of C02_id_short, checked on all 128 code points)",
